@@ -66,6 +66,7 @@ def h_ssModel : Handler := fun j => do
   match ssDelta N cvals with
   | .error e => pure (Json.mkObj [("err", e.tag)])
   | .ok Delta =>
+    if (ssColsL N lvals).length ≠ lvals.length then pure (Json.mkObj [("err", Err.keyError.tag)]) else
     match ssCertificates N cvals lvals Delta with
     | .error msg =>
       if msg.startsWith "singular:" then pure (Json.mkObj [("singular", (msg.drop 9).toString)]) else throw msg
